@@ -120,6 +120,29 @@ package keeper
 //@        && result.VestingPools[j].Name == $pName[req.Owner][j] && result.VestingPools[j].LockEnd == $pLockEnd[req.Owner][j]
 //@   decreases len(accountVestingPools.VestingPools) - \i
 
+//@ // ---- C13: only governance changes the vesting denomination, and only while no pool exists ----
+//@ spec func vpKey() str = global("types.ParamsKey")
+//@ pred noPools() = forall o: str :: {$pFound[o]} !$pFound[o]
+//@ func (k Keeper) GetAllAccountVestingPools(ctx) (list)
+//@   trusted
+//@   ensures (len(list) == 0) == noPools()
+//@ func (k Keeper) SetParams(ctx, p) (err)
+//@   modifies $kvHas, $kvVal
+//@   ensures err != nil ==> kvUnchanged()
+//@   ensures err == nil ==> len(p.Denom) != 0 && $kvHas[storeOf(k.storeKey)][vpKey()] && $kvVal[storeOf(k.storeKey)][vpKey()] == encOf("types.Params", p.Denom)
+//@   ensures kvOnlyChanged(storeOf(k.storeKey), vpKey())
+//@   prop C13
+//@ func (k msgServer) UpdateDenomParam(goCtx, msg) (resp, err)
+//@   requires msg != nil
+//@   modifies $kvHas, $kvVal
+//@   ensures msg.Authority != k.authority ==> err != nil
+//@   ensures !noPools() ==> err != nil
+//@   ensures err != nil ==> kvUnchanged()
+//@   ensures err == nil ==> msg.Authority == k.authority && noPools() && len(msg.Denom) != 0
+//@     && $kvHas[storeOf(k.storeKey)][vpKey()] && $kvVal[storeOf(k.storeKey)][vpKey()] == encOf("types.Params", msg.Denom)
+//@   ensures kvOnlyChanged(storeOf(k.storeKey), vpKey())
+//@   prop C13
+
 //@ // ---- declared effects (checked per call instruction by the effect checker; anything not listed is effect-free) ----
 //@ effects Keeper.CreateVestingAccount auth.setaccount bank.send
 //@ effects Keeper.CreateVestingPool bank.send
